@@ -414,7 +414,9 @@ static void skip_value(thrift_decoder_t* dec, thrift_type_t type, int depth) {
             break;
 
         case THRIFT_TYPE_BYTE:
-            carquet_buffer_reader_skip(&dec->reader, 1);
+            if (carquet_buffer_reader_skip(&dec->reader, 1) != CARQUET_OK) {
+                set_error(dec, CARQUET_ERROR_THRIFT_TRUNCATED, "Truncated byte");
+            }
             break;
 
         case THRIFT_TYPE_I16:
@@ -424,7 +426,9 @@ static void skip_value(thrift_decoder_t* dec, thrift_type_t type, int depth) {
             break;
 
         case THRIFT_TYPE_DOUBLE:
-            carquet_buffer_reader_skip(&dec->reader, 8);
+            if (carquet_buffer_reader_skip(&dec->reader, 8) != CARQUET_OK) {
+                set_error(dec, CARQUET_ERROR_THRIFT_TRUNCATED, "Truncated double");
+            }
             break;
 
         case THRIFT_TYPE_BINARY: {
@@ -467,7 +471,9 @@ static void skip_value(thrift_decoder_t* dec, thrift_type_t type, int depth) {
         }
 
         case THRIFT_TYPE_UUID:
-            carquet_buffer_reader_skip(&dec->reader, 16);
+            if (carquet_buffer_reader_skip(&dec->reader, 16) != CARQUET_OK) {
+                set_error(dec, CARQUET_ERROR_THRIFT_TRUNCATED, "Truncated UUID");
+            }
             break;
 
         default:
